@@ -13,7 +13,7 @@
      noempty_t            no empty group *)
 From Coq Require Import List NArith Permutation Sorted.
 From HV Require Import Base.Res Base.Str Model.Dups Gen.C04Codes
-  Proofs.DupsProofs Proofs.DupsCount Proofs.DupsRules.
+  Proofs.DupsProofs Proofs.DupsCount Proofs.DupsRules Proofs.DupsKey.
 Import ListNotations.
 
 (* ---- placement rules (tagGroup / topLevelTagGroup / several top-level tags / empty group) ---- *)
@@ -124,6 +124,44 @@ Theorem C04_canonical_key_injective : forall v w,
   wfc (canon v) = true -> wfc (canon w) = true -> vkey Fx v = vkey Fx w -> veq Fx v w = true.
 Proof. exact vkey_injective. Qed.
 Print Assumptions C04_canonical_key_injective.
+
+(* What the check needs of the key of the second (canonical) sort, with the
+   sorted view recomputed for an ARBITRARY key ([sorted_view_k]; the repaired
+   code is the instance key = _sort_key = vkey Fx):
+   a key that only depends on the canonical form and separates well-formed
+   canonical forms -- in particular groups that differ only in nesting --
+   gives order invariance ... *)
+Theorem C04_dup_invariant_order_any_injective_key :
+  forall (key : view -> str) (kc : cview -> str),
+  (forall v, key v = kc (canon v)) ->
+  (forall c d, wfc c = true -> wfc d = true -> kc c = kc d -> c = d) ->
+  forall top top', PermForest top top' -> forallb wft top = true ->
+  dup_p Fx (VL (sorted_view_k key top)) = dup_p Fx (VL (sorted_view_k key top')).
+Proof. exact dup_perm_good_key. Qed.
+Print Assumptions C04_dup_invariant_order_any_injective_key.
+
+(* ... the real key is such a key and sorted_view_k instantiates to the model ... *)
+Theorem C04_real_key_is_good :
+  (forall v, vkey Fx v = ckey (canon v)) /\
+  (forall c d, wfc c = true -> wfc d = true -> ckey c = ckey d -> c = d).
+Proof. exact real_key_is_good. Qed.
+Print Assumptions C04_real_key_is_good.
+
+Theorem C04_sorted_view_k_real : forall top, sorted_view_k (vkey Fx) top = sorted_view Fx top.
+Proof. exact sorted_view_k_real. Qed.
+Print Assumptions C04_sorted_view_k_real.
+
+(* ... and a key that forgets nesting (the flattened case-folded tags) is not
+   injective and makes the check order dependent again *)
+Theorem C04_dup_invariant_refuted_flat_key :
+  PermForest w_flat_1 w_flat_2 /\ forallb wft w_flat_1 = true /\
+  flatkey (sv_k flatkey (G [Blue; G [Red]])) = flatkey (sv_k flatkey (G [G [Red; Blue]])) /\
+  dup_p Fx (VL (sorted_view_k flatkey w_flat_1)) = [] /\
+  dup_p Fx (VL (sorted_view_k flatkey w_flat_2)) = [K_TAG_REPEATED_GROUP] /\
+  check_for_duplicate_groups Fx w_flat_1 = Ok [K_TAG_REPEATED_GROUP] /\
+  check_for_duplicate_groups Fx w_flat_2 = Ok [K_TAG_REPEATED_GROUP].
+Proof. exact dup_invariant_refuted_flat_key. Qed.
+Print Assumptions C04_dup_invariant_refuted_flat_key.
 
 (* the model of list.sort is a stable sort *)
 Theorem C04_sort_is_stable_sort : forall (l : list (str * view)),
